@@ -106,7 +106,7 @@ def check_case(acc, case):
                 key = {"fam": fam, "kind": kind, "default_index": case["index"] == "range"}
                 cls = classes()[kind]
                 index = dets.make_index(case["index"], n)
-                columns = pd.Index(list(range(p)) if case["cols"] == "default" else [f"v{chr(97+j)}" for j in range(p)])
+                columns = pd.Index(dets.column_labels(case["cols"], p))
                 ev = case["events"]
                 events = [tuple(e) if kind != "change" else e for e in ev]
                 if kind == "subset":
@@ -184,6 +184,10 @@ def conv_cases(tier):
                         if (len(s) + n) % 2 and cl == "str" and ik not in ("range", "datetime"):
                             continue
                         yield {"fam": "conv", "kind": "subset", "n": n, "p": p, "events": ev, "index": ik, "cols": cl}
+                    # integer column labels that are not the positions 0..p-1 (affected columns are POSITIONS)
+                    if p >= 2 and n <= top - 1:
+                        for ik, cl in (("range", "revint"), ("datetime", "offint"), ("offset", "revint"), ("range", "offint")):
+                            yield {"fam": "conv", "kind": "subset", "n": n, "p": p, "events": ev, "index": ik, "cols": cl}
 
 
 def det_cases(tier, seed):
@@ -208,6 +212,9 @@ def det_cases(tier, seed):
             x = [list(flat[2 * i:2 * i + 2]) for i in range(n)]
             for ik in dets.INDEX_KINDS:
                 yield {"fam": "det", "det": "MVCAPA", "x": x, "index": ik, "cols": "str" if ik == "datetime" else "default"}
+            if n <= 5:
+                yield {"fam": "det", "det": "MVCAPA", "x": x, "index": "range", "cols": "revint"}
+                yield {"fam": "det", "det": "MVCAPA", "x": x, "index": "datetime", "cols": "offint"}
     for name in ("PELT", "CAPA", "CircularBinarySegmentation"):
         for flat in itertools.product(alph, repeat=8):
             x = [list(flat[2 * i:2 * i + 2]) for i in range(4)]
@@ -224,7 +231,7 @@ def shards(tier, seed):
 
 def bounds(tier, seed):
     return {"conv": "changepoint subsets n<=9 (quick)/11; interval sets n<=8/9; subset variant p=1 n<=5, p=2 n<=4/5, p=3 n<=3/4 (all non-empty column subsets, both column orders)",
-            "index_kinds": list(dets.INDEX_KINDS), "index_kinds_on_reduced_families": list(dets.INDEX_KINDS_EXTRA), "column_labels": ["default ints", "strings"],
+            "index_kinds": list(dets.INDEX_KINDS), "index_kinds_on_reduced_families": list(dets.INDEX_KINDS_EXTRA), "column_labels": ["default ints", "strings", "integers p-1..0 (reduced families)", "integers 1..p (reduced families)"],
             "det": "6 univariate detectors on all (0,4) series n in (6,7) quick / (6..9) thorough x 5 index kinds; MVCAPA on all 2-column (0,4) series n in (4,5)/(4,5,6)"}
 
 
